@@ -5,6 +5,7 @@ import (
 	"os"
 	"path/filepath"
 	"regexp"
+	"sort"
 	"strings"
 	"sync"
 	"time"
@@ -235,6 +236,35 @@ func CheckC16(e *Env) int {
 		record("module/import-path", e.Wire(rootA, nil, "gen", p.ImportPath(0)), rootA)
 		os.Remove(filepath.Join(rootA, pkgRel, "wire_gen.go"))
 		record("module/default-command-in-dir", e.Wire(filepath.Join(rootA, pkgRel), nil), rootA)
+		// the package named by the list of its files, in sorted, reversed and rotated order
+		if ents, err := os.ReadDir(filepath.Join(rootA, pkgRel)); err == nil {
+			var files []string
+			for _, en := range ents {
+				n := en.Name()
+				if !en.IsDir() && strings.HasSuffix(n, ".go") && !strings.HasSuffix(n, "_test.go") && n != "wire_gen.go" {
+					files = append(files, n)
+				}
+			}
+			sort.Strings(files)
+			orders := map[string][]string{"sorted": files}
+			rev := append([]string(nil), files...)
+			for a, b := 0, len(rev)-1; a < b; a, b = a+1, b-1 {
+				rev[a], rev[b] = rev[b], rev[a]
+			}
+			orders["reversed"] = rev
+			if len(files) > 2 {
+				k := 1 + i%(len(files)-1)
+				orders["rotated"] = append(append([]string(nil), files[k:]...), files[:k]...)
+			}
+			for _, on := range []string{"sorted", "reversed", "rotated"} {
+				fl, ok := orders[on]
+				if !ok {
+					continue
+				}
+				os.Remove(filepath.Join(rootA, pkgRel, "wire_gen.go"))
+				record("module/file-list-"+on, e.Wire(filepath.Join(rootA, pkgRel), nil, append([]string{"gen"}, fl...)...), rootA)
+			}
+		}
 		// root B: deeper, different names, together with other packages
 		rootB := filepath.Join(e.Scratch, "c16", fmt.Sprintf("b%03d", i), "some where", "else-"+fmt.Sprint(i), "checkout.d")
 		os.MkdirAll(rootB, 0o755)
